@@ -49,6 +49,11 @@ def mk_case(rng, names, edges, remove):
     for a, b in edges:
         d.setdefault(a, []).append([b, mult(rng)])
     dl = [[a, bs] for a, bs in d.items()]
+    spare = [n for n in names if n not in d]
+    if spare and rng.random() < 0.2:
+        # an entry with NO components (a resource that costs nothing in the target gate set): decomposed all the same --
+        # removed, or kept with type other -- and it contributes nothing to anything
+        dl.append([rng.choice(spare), []])
     rng.shuffle(dl)
     nodes = []
     for k, nm in enumerate(["root", "a"]):
